@@ -69,7 +69,7 @@ def run_lattice(ctx, cfg: str, name: str, purpose: str, coverage: bool = False, 
 def spec_mutant_killed(ctx) -> bool:
     """RetroConvention = "ccw" (the code as written, D14) must be refuted by TLC."""
     cfg = lattice_cfg("FamMutant", "KindsCube", arcs=False, convention="ccw", emit=False)
-    res = tlc.run_tlc("OrbitLattice", cfg, ctx.sub("specmutant"), workers=2, timeout=900)
+    res = tlc.run_tlc("OrbitLattice", cfg, ctx.sub("specmutant"), workers=1, timeout=900)
     ctx.add_tlc(res, 'spec mutant RetroConvention="ccw" (D14 as coded): ElementRoundTrip must be refuted')
     killed = any(n in ("ElementRoundTrip", "EquatorialSplit") for n, _ in res.invariant_violations)
     if not killed:
